@@ -371,7 +371,7 @@ class C07(core.Check):
         return out
 
     def gen_cases(self, rng: random.Random, tier: str) -> List[dict]:
-        n = 260 if tier == "quick" else 2400
+        n = 200 if tier == "quick" else 2400
         cases = [self._asm_case(rng) for _ in range(n)]
         cases += [self._face_case(rng) for _ in range(n // 4)]
         # ill-formed stream: both sides must refuse (the model answers `bad-op`, never a default)
@@ -698,7 +698,7 @@ class C07(core.Check):
         if k == "project":
             return vnorm(vsub(fl(A), fl(B))), 1e-9
         fn = curve_fn(unfrs(d["A"]), unfrs(d["B"]), unfrs(d["w"]))
-        return polyline_length([fn(i / 4000) for i in range(4001)]), 2e-3
+        return polyline_length([fn(i / 1000) for i in range(1001)]), 2e-3
 
     def oracle(self, case: dict, impl: Any) -> List[dict]:
         if case["kind"] == "reject":
